@@ -1,181 +1,21 @@
 /-
   C11 — both disk flavours hold the same disk; load/save is identity; geometry is fixed.
+  (the geometry, setter and load-then-save theorems are in Proofs/DiskGeometry.lean, namespace Moto.C11)
 -/
-import MotoModel.Model.DiskCli
+import MotoModel.Proofs.DiskGeometry
+import MotoModel.Proofs.DiskSaveLoad
 namespace Moto.C11
 open Moto Moto.Disk
 
-theorem payload_size : Gen.Disk.payloadSizeFd = 256 ∧ Gen.Disk.payloadSizeSd = 256 := ⟨rfl, rfl⟩
-theorem sector_sizes : sectorSize .fd = 256 ∧ sectorSize .sd = 512 := ⟨rfl, rfl⟩
-theorem geometry : Gen.Disk.tracksPerSide = 80 ∧ Gen.Disk.sectorsPerTrack = 16 ∧ sectorsPerSide = 1280 := ⟨rfl, rfl, rfl⟩
-theorem side_sizes : sizeOfSide .fd = 327680 ∧ sizeOfSide .sd = 655360 := ⟨rfl, rfl⟩
-theorem sd_padding : Gen.Disk.sdPadding = List.replicate 256 0xFF := by decide +kernel
+/-- **C11 (save then load)**: a four-sided image in memory, serialised in either flavour and
+    loaded again, is the same image: the archive carries the sector payloads and nothing else. -/
+theorem save_then_load (fl : Flavour) (img : Image) (hw : WFImage img) (h4 : img.length = 4) :
+    load fl (save fl img) = .ok img := load_save fl img hw h4
 
-/-- **C11 (setter keeps the length)**: assigning a payload of *any* length never moves a sector
-    boundary. -/
-theorem setPayload_length (sec v : Bytes) (h : 256 ≤ sec.length) : (setPayload sec v).length = sec.length := by
-  unfold setPayload sliceAssign
-  have : Gen.Disk.payloadSizeFd = 256 := rfl
-  simp only [this]
-  split <;> simp <;> omega
-
-/-- … and overwrites exactly the first min(|v|, 256) bytes -/
-theorem setPayload_eq (sec v : Bytes) :
-    setPayload sec v = v.take 256 ++ sec.drop (min v.length 256) := by
-  unfold setPayload sliceAssign
-  have : Gen.Disk.payloadSizeFd = 256 := rfl
-  simp only [this]
-  by_cases h : v.length < 256
-  · simp only [h, if_true]
-    have h1 : v.take v.length = v := List.take_of_length_le (Nat.le_refl _)
-    have h2 : v.take 256 = v := List.take_of_length_le (by omega)
-    have h3 : min v.length 256 = v.length := by omega
-    simp [h1, h2, h3]
-  · simp only [h, if_false]
-    have h3 : min v.length 256 = 256 := by omega
-    simp [h3]
-
-/-- what the archivers assign is never longer than a sector payload -/
-theorem tool_assignments_le_256 (content : Bytes) (i : Nat) : (slice content (i * 255) (i * 255 + 255)).length ≤ 256 := by
-  simp [slice]; omega
-
-/-! ### save -/
-
-/-- well-formed geometry of an image in memory -/
-def WFSide (sd : Side) : Prop := sd.length = 1280 ∧ ∀ s ∈ sd, s.length = 256
-def WFImage (img : Image) : Prop := ∀ sd ∈ img, WFSide sd
-
-theorem flatMap_length_const {α} (l : List α) (f : α → Bytes) (k : Nat) (h : ∀ x ∈ l, (f x).length = k) :
-    (l.flatMap f).length = l.length * k := by
-  induction l with
-  | nil => simp
-  | cons x xs ih =>
-    simp only [List.flatMap_cons, List.length_append, List.length_cons]
-    rw [h x (by simp), ih (fun y hy => h y (by simp [hy]))]
-    rw [Nat.add_mul]; omega
-
-/-- **C11 (fixed geometry)**: the archive length is sides x 80 x 16 x sector size, whatever was stored -/
-theorem save_length (fl : Flavour) (img : Image) (h : WFImage img) :
-    (save fl img).length = img.length * (1280 * sectorSize fl) := by
-  unfold save
-  apply flatMap_length_const
-  intro sd hsd
-  obtain ⟨h1, h2⟩ := h sd hsd
-  rw [flatMap_length_const sd _ (sectorSize fl), h1]
-  intro sec hsec
-  have := h2 sec hsec
-  cases fl
-  · simp [this]; rfl
-  · simp only [List.length_append, this]
-    have : Gen.Disk.sdPadding.length = 256 := by decide +kernel
-    rw [this]; rfl
-
-/-- **C11 (flavours)**: the .sd archive is the .fd archive with the 256-byte FF padding after
-    every sector: both are laid out from the same sector payloads. -/
-theorem save_fd_payloads (img : Image) : save .fd img = img.flatten.flatten := by
-  simp [save, List.flatMap_def, List.flatten_flatten]
-
-theorem save_sd_interleave (img : Image) : save .sd img = img.flatten.flatMap (· ++ Gen.Disk.sdPadding) := by
-  simp only [save]
-  induction img with
-  | nil => rfl
-  | cons sd rest ih =>
-    simp only [List.flatMap_cons, List.flatten_cons, List.flatMap_append, ih]
-
-/-- the model is flavour-agnostic above load/save: both tools compute the same sides from the
-    same sources, and differ only in how `save` lays the sectors out -/
-theorem create_same_sides (w : Tape.World) (verbose : Bool) (a1 a2 : Str) (srcs : List Str) :
-    ((create .fd w verbose a1 srcs).writes = [] ∧ (create .sd w verbose a2 srcs).writes = []) ∨
-    ∃ img, (create .fd w verbose a1 srcs).writes = [(a1, save .fd img)] ∧ (create .sd w verbose a2 srcs).writes = [(a2, save .sd img)] := by
-  unfold create performOn
-  split
-  · left; exact ⟨rfl, rfl⟩
-  · cases performCore w verbose _ srcs with
-    | error e => left; exact ⟨rfl, rfl⟩
-    | ok st => right; exact ⟨st.img, rfl, rfl⟩
-
-/-! ### load then save -/
-
-theorem sectorsOf_fd_flatten (n : Nat) : ∀ raw : Bytes, 256 * n ≤ raw.length →
-    (sectorsOf .fd n raw).flatten = raw.take (256 * n) := by
-  induction n with
-  | zero => intro raw _; simp [sectorsOf]
-  | succ n ih =>
-    intro raw h
-    have e1 : Gen.Disk.payloadSizeFd = 256 := rfl
-    have e2 : sectorSize .fd = 256 := rfl
-    simp only [sectorsOf, List.flatten_cons, e1, e2]
-    rw [ih (raw.drop 256) (by rw [List.length_drop]; omega)]
-    have : 256 * (n + 1) = 256 + 256 * n := by omega
-    rw [this, List.take_add]
-
-theorem sectorsOf_wf (fl : Flavour) (n : Nat) : ∀ raw : Bytes, sectorSize fl * n ≤ raw.length →
-    (sectorsOf fl n raw).length = n ∧ ∀ s ∈ sectorsOf fl n raw, s.length = 256 := by
-  induction n with
-  | zero => intro raw _; simp [sectorsOf]
-  | succ n ih =>
-    intro raw h
-    have hs : 256 ≤ sectorSize fl := by cases fl <;> decide
-    have e1 : Gen.Disk.payloadSizeFd = 256 := rfl
-    rw [Nat.mul_add, Nat.mul_one] at h
-    obtain ⟨h1, h2⟩ := ih (raw.drop (sectorSize fl)) (by rw [List.length_drop]; omega)
-    constructor
-    · simp [sectorsOf, h1]
-    · intro s hs'
-      simp only [sectorsOf, List.mem_cons] at hs'
-      rcases hs' with h' | h'
-      · rw [h', e1, List.length_take]; omega
-      · exact h2 s h'
-
-theorem pieces_flatten (k : Nat) : ∀ (n : Nat) (raw : Bytes), raw.length = k * n →
-    ((List.range n).map (fun i => (raw.drop (k * i)).take k)).flatten = raw := by
-  intro n
-  induction n with
-  | zero => intro raw h; simp at h; simp [h]
-  | succ n ih =>
-    intro raw h
-    rw [List.range_succ_eq_map, List.map_cons, List.map_map, List.flatten_cons]
-    rw [Nat.mul_add, Nat.mul_one] at h
-    have := ih (raw.drop k) (by rw [List.length_drop, h]; omega)
-    have e : ((fun i => (raw.drop (k * i)).take k) ∘ Nat.succ) = fun i => ((raw.drop k).drop (k * i)).take k := by
-      funext i; simp [Nat.mul_succ, Nat.add_comm]
-    rw [e, this]
-    simp
-
-/-- **C11 (load/save identity, emulator flavour)**: a valid .fd of 1, 2 or 4 sides is saved back
-    byte for byte when nothing is stored. -/
-theorem load_save_fd (raw : Bytes) (img : Image) (n : Nat) (hn : n = 1 ∨ n = 2 ∨ n = 4)
-    (hlen : raw.length = 327680 * n) (h : load .fd raw = .ok img) : save .fd img = raw := by
-  unfold load at h
-  have hs : sizeOfSide .fd = 327680 := rfl
-  have hne : ¬ (raw.length = 0) := by rcases hn with h | h | h <;> omega
-  have hdiv : raw.length / 327680 = n := by rw [hlen]; simp
-  have hmin : min n 4 = n := by rcases hn with h | h | h <;> omega
-  simp only [hne, if_false, hs, hdiv, hmin] at h
-  have hbad : (n == 0 || n == 3) = false := by rcases hn with h | h | h <;> subst h <;> rfl
-  have hint : ¬ (n < 4 ∧ n * 327680 < raw.length) := by rw [Nat.mul_comm]; omega
-  simp only [hbad, Bool.false_eq_true, if_false, hint] at h
-  cases h
-  rw [save_fd_payloads]
-  have hside : ∀ i ∈ List.range n, (sectorsOf .fd sectorsPerSide (raw.drop (i * 327680))).flatten
-      = (raw.drop (327680 * i)).take 327680 := by
-    intro i hi
-    have hi' : i < n := by simpa using hi
-    rw [Nat.mul_comm i 327680]
-    have := sectorsOf_fd_flatten 1280 (raw.drop (327680 * i)) (by
-      rw [List.length_drop, hlen]; omega)
-    exact this
-  rw [List.flatten_flatten, List.map_map]
-  have hm : (List.range n).map (List.flatten ∘ fun i => sectorsOf .fd sectorsPerSide (raw.drop (i * 327680)))
-      = (List.range n).map (fun i => (raw.drop (327680 * i)).take 327680) :=
-    List.map_congr_left (fun i hi => hside i hi)
-  rw [hm]
-  exact pieces_flatten 327680 n raw hlen
-
-/-- non-vacuity: the hypotheses of `save_length` hold for a blank image -/
-example : WFSide blankSide := by
-  constructor
-  · decide +kernel
-  · intro s hs; simp [blankSide] at hs; rw [hs.2]; decide +kernel
+/-- **C11 (flavours hold the same disk)**: what is loaded back from the .fd serialisation and from
+    the .sd serialisation of the same image is the same image. -/
+theorem both_flavours_same_disk (img : Image) (hw : WFImage img) (h4 : img.length = 4) :
+    load .fd (save .fd img) = load .sd (save .sd img) := by
+  rw [load_save .fd img hw h4, load_save .sd img hw h4]
 
 end Moto.C11
